@@ -22,12 +22,51 @@ class _Range(tuple):
     pass
 
 
+UNIVERSE = [None, 0, 1, 2, 'a', 'b', True, 2.5, (1,), 'SCR']
+
+
+def _dom(dom):
+    # forall(Val, ...): a small universe of values (bounded!) that contains
+    # every value occurring in the arguments of the case
+    if dom == 'Val':
+        return list(UNIVERSE) + list(_CASE_VALUES)
+    if dom == 'Str':
+        return ['', 'a', 'b', 'ab', '$', '$1'] + [
+            v for v in _CASE_VALUES if isinstance(v, str)]
+    if dom == 'Int':
+        return list(range(-2, 5))
+    return dom
+
+
+_CASE_VALUES = []
+
+
+def _collect(v, out, depth=0):
+    if depth > 4:
+        return
+    if isinstance(v, (list, tuple, set, frozenset)):
+        for x in v:
+            _collect(x, out, depth + 1)
+    elif isinstance(v, dict):
+        for k, x in v.items():
+            _collect(k, out, depth + 1)
+            _collect(x, out, depth + 1)
+    elif isinstance(v, _Counting):
+        _collect(v.seq, out, depth + 1)
+    try:
+        hash(v)
+        if not callable(v):
+            out.append(v)
+    except TypeError:
+        pass
+
+
 def _helpers():
     def forall(dom, fn):
-        return all(fn(k) for k in dom)
+        return all(fn(k) for k in _dom(dom))
 
     def exists(dom, fn):
-        return any(fn(k) for k in dom)
+        return any(fn(k) for k in _dom(dom))
 
     def implies(a, b):
         return (not a) or bool(b)
@@ -47,8 +86,35 @@ def _helpers():
     def val(x):
         return x
 
+    def isinstance_(x, c):
+        # contracts name classes by their (unqualified) name
+        cs = c if isinstance(c, tuple) else (c,)
+        for k in cs:
+            if isinstance(k, str):
+                if k in ABC_NAMES:
+                    if __builtins__isinstance(x, ABC_NAMES[k]):
+                        return True
+                elif k == 'NoneType':
+                    if x is None:
+                        return True
+                elif any(t.__name__ == k for t in type(x).__mro__):
+                    return True
+            elif __builtins__isinstance(x, k):
+                return True
+        return False
+
     return dict(STRING=__import__('string'), val=val, forall=forall, exists=exists, implies=implies, iff=iff,
-                ite=ite, truthy=truthy, ufn=ufn)
+                ite=ite, truthy=truthy, ufn=ufn, Val='Val', Str='Str',
+                Int='Int', isinstance=isinstance_)
+
+
+import builtins as _b
+import collections.abc as _abc
+__builtins__isinstance = _b.isinstance
+ABC_NAMES = {n: getattr(_abc, n) for n in (
+    'Mapping', 'MutableMapping', 'Sequence', 'MutableSequence', 'Set',
+    'MutableSet', 'Iterable', 'Iterator', 'Sized', 'Hashable', 'Callable',
+    'Generator', 'Collection', 'Container')}
 
 
 NATIVE_UF = {
@@ -163,6 +229,25 @@ def domain(desc, scope):
         if desc.get('as') == 'list':
             return [list(t) for t in out]
         return out
+    if k == 'tupleof':
+        base = domain(desc['elem'], 1)[:3]
+        return [tuple(p) for p in itertools.product(base, repeat=desc['n'])]
+    if k == 'set':
+        base = domain(desc['elem'], 1)[:3]
+        out = []
+        for n in range(0, min(scope, 2) + 1):
+            out += [frozenset(c) for c in itertools.combinations(base, n)]
+        return out
+    if k == 'map':
+        keys = domain(desc['key'], 1)[:2]
+        vals = domain(desc['val'], 1)[:2]
+        out = [{}]
+        for kk in keys:
+            for vv in vals:
+                out.append({kk: vv})
+        if len(keys) > 1:
+            out.append({keys[0]: vals[0], keys[1]: vals[-1]})
+        return [_Map(d, desc.get('mutable')) for d in out]
     if k == 'opt':
         return [None] + domain(desc['inner'], scope)
     if k == 'const':
@@ -211,11 +296,35 @@ class _CountedFn:
         return self.fn(*a, **k)
 
 
+class _Map:
+    """Marker: a mapping argument (a fresh dict / FrozenDict per case)."""
+
+    def __init__(self, d, mutable):
+        self.d, self.mutable = d, mutable
+
+    def make(self):
+        if self.mutable:
+            return dict(self.d)
+        from yaql.language import utils
+        return utils.FrozenDict(self.d)
+
+    def __repr__(self):
+        return repr(self.d)
+
+
 class _Expr:
     def __init__(self, code):
         self.code = code
 
+    _cache = {}
+
     def make(self):
+        # engines are immutable: one per run; everything else per case
+        if 'YaqlFactory().create()' in self.code:
+            if self.code not in _Expr._cache:
+                _Expr._cache[self.code] = eval(
+                    self.code, {'__import__': __import__})
+            return _Expr._cache[self.code]
         return eval(self.code, {'__import__': __import__})
 
     def __repr__(self):
@@ -233,7 +342,9 @@ def bounded(target, params, requires, ensures, raises, is_gen, scope, repo,
             max_cases=20000, track_pulls=None, seq_result=False):
     fn = resolve(target, repo)
     names = list(params)
-    doms = [domain(params[n], scope) for n in names]
+    ENG = "__import__('yaql').YaqlFactory().create()"
+    doms = [[_Expr(ENG)] if n == 'engine' and params[n].get('kind') == 'val'
+            else domain(params[n], scope) for n in names]
     total = ok = skipped = 0
     for combo in itertools.product(*doms):
         total += 1
@@ -251,9 +362,16 @@ def bounded(target, params, requires, ensures, raises, is_gen, scope, repo,
                 args[n] = spec_args[n] = _CountedFn(v)
             elif isinstance(v, _Expr):
                 args[n] = spec_args[n] = v.make()
+            elif isinstance(v, _Map):
+                args[n] = spec_args[n] = v.make()
+                spec_args['OLD_' + n] = dict(v.d)
+                spec_args['old_' + n] = dict(v.d)
             else:
                 args[n] = v
                 spec_args[n] = v
+        del _CASE_VALUES[:]
+        for v_ in spec_args.values():
+            _collect(v_, _CASE_VALUES)
         if seq_result:
             spec_args['__seq_result__'] = True
         verdict, info = run_case_split(fn, args, spec_args, requires, ensures,
@@ -269,6 +387,33 @@ def bounded(target, params, requires, ensures, raises, is_gen, scope, repo,
                             spec_args[n], _Counting) else repr(spec_args[n]))
                             for n in names})
     return dict(status='ok', cases=total, checked=ok, skipped=skipped)
+
+
+def _invoke(fn, call_args):
+    """Call fn with the arguments by name; a supplied *args parameter is
+    spread (everything declared before it then goes positionally), a
+    supplied **kwargs parameter is merged."""
+    import inspect
+    try:
+        sig = inspect.signature(fn)
+    except (TypeError, ValueError):
+        return fn(**call_args)
+    params = list(sig.parameters.items())
+    var_pos = [nm for nm, p in params if p.kind is p.VAR_POSITIONAL]
+    var_kw = [nm for nm, p in params if p.kind is p.VAR_KEYWORD]
+    kw = {k: v for k, v in call_args.items()
+          if k not in var_pos and k not in var_kw}
+    for nm in var_kw:
+        if nm in call_args:
+            kw.update(call_args[nm])
+    if var_pos and var_pos[0] in call_args:
+        pos = []
+        for nm, p in params:
+            if p.kind is p.VAR_POSITIONAL:
+                break
+            pos.append(kw.pop(nm))      # KeyError: the case is ill-formed
+        return fn(*(pos + list(call_args[var_pos[0]])), **kw)
+    return fn(**kw)
 
 
 def run_case_split(fn, call_args, spec_args, requires, ensures, raises,
@@ -287,7 +432,13 @@ def run_case_split(fn, call_args, spec_args, requires, ensures, raises,
         except Exception:
             return 'skip', None
     try:
-        res = fn(**call_args)
+        import inspect as _insp
+        try:
+            _names = set(_insp.signature(fn).parameters)
+        except (TypeError, ValueError):
+            _names = set(call_args)
+        res = _invoke(fn, {k: v for k, v in call_args.items()
+                           if k in _names})
         if is_gen or isinstance(res, types.GeneratorType) or (hasattr(
                 res, '__next__') and not isinstance(res, _Counting)):
             items, pulls = [], []
@@ -321,6 +472,8 @@ def run_case_split(fn, call_args, spec_args, requires, ensures, raises,
             if not eval(_compile(e), env):
                 return 'violation', 'ensures failed: %s (got %r)' % (
                     e, env.get('out', env.get('result')))
+        except NameError:
+            return 'skip', None     # a ghost name without a native twin
         except Exception as e2:
             return 'violation', 'ensures raised %s: %s [%s]' % (
                 type(e2).__name__, e2, e)
